@@ -430,11 +430,38 @@ WHOLE = [
      'pm_toomany = functools.partial(m0.m, 1, 2)\n'
      'p_ok = functools.partial(f2, 1, 2)\n',
      ['p_toomany', 'p_badkw', 'p_twice', 'p_of_p', 'p_toomany2', 'pm_toomany', 'p_ok']),
+    ('partials_naming_positional_only',
+     'def k(a, /, b, *args, **kwargs):\n    return g(*args, **kwargs)\n'
+     'def k2(x, /, **kw):\n    return x\n'
+     'p1 = functools.partial(k, 1, a=3)\np2 = functools.partial(k, a=3)\n'
+     'p3 = functools.partial(k2, 1, x=2)\np4 = functools.partial(k2, x=2)\n'
+     'def user(u, *args, **kwargs):\n    return k(u, *args, a=1, **kwargs)\n',
+     ['p1', 'p2', 'p3', 'p4', 'user']),
+    ('module_level_bound_methods',
+     'class R0(object):\n    def randint(self, a, b):\n        return a\n'
+     '    def fwd(self, a, *args, **kwargs):\n        return g(*args, **kwargs)\n'
+     '    @classmethod\n    def make(cls, n=1):\n        return cls()\n'
+     '_inst = R0()\nrandint = _inst.randint\nfwd = _inst.fwd\nmake = R0.make\ninst0 = _inst\n',
+     ['randint', 'fwd', 'make', 'inst0.randint', 'R0.make', 'R0.randint']),
+    ('same_named_stars_three_levels',
+     'def innermost(x, *args, **kwargs):\n    return x\n'
+     'def middle(name=None, *args, **kwargs):\n    return innermost(*args, **kwargs)\n'
+     'def outer(*args, **kwargs):\n    return middle(*args, name=1, **kwargs)\n'
+     'def outer2(a, *args, **kwargs):\n    return middle(a, *args, name=1, **kwargs)\n'
+     'class M1(object):\n    def meth(self, *args, **kwargs):\n        return middle(*args, name=1, **kwargs)\nm1 = M1()\n'
+     'pmid = functools.partial(middle, name=1)\npmid2 = functools.partial(middle, 1, 2)\n',
+     ['outer', 'outer2', 'm1.meth', 'M1.meth', 'pmid', 'pmid2', 'middle']),
     ('pep563_module', '#FUTURE#\nimport typing\n'
                       'def noparams() -> typing.List[int]:\n    return []\n'
                       'def fwd(*args, **kwargs) -> int:\n    return g(*args, **kwargs)\n'
                       'def some(a: int, b: "str" = "s", *args: typing.Any, **kwargs) -> None:\n    return g(*args, **kwargs)\n'
                       'def unevaluable(a: NotDefinedAnywhere) -> AlsoNot:\n    return a\n'
+                      'REG0 = {}\nCH0 = (1, 2)\n'
+                      'def bad_key(a: REG0["unknown"]) -> int:\n    return a\n'
+                      'def bad_index(a) -> typing.Literal[CH0[2]]:\n    return a\n'
+                      'def bad_zero(a: typing.Annotated[int, 1 // 0]):\n    return a\n'
+                      'def bad_import(a) -> __import__("missing_mod_xyz0").X:\n    return a\n'
+                      'def bad_fwd(*args, **kwargs) -> REG0["unknown"]:\n    return g(*args, **kwargs)\n'
                       'class Conn(object):\n'
                       '    def close(self) -> None:\n        pass\n'
                       '    def send(self, data: bytes, *, flags: int = 0) -> int:\n        return 0\n'
@@ -442,7 +469,7 @@ WHOLE = [
                       '    @staticmethod\n    def version() -> typing.Tuple[int, int]:\n        return (1, 0)\n'
                       '    def fwd(self, *args, **kwargs) -> typing.Optional[int]:\n        return g(*args, **kwargs)\n'
                       'conn = Conn()\n',
-     ['noparams', 'fwd', 'some', 'unevaluable', 'Conn.close', 'Conn.send', 'Conn.default', 'Conn.version', 'Conn.fwd',
+     ['noparams', 'fwd', 'some', 'unevaluable', 'bad_key', 'bad_index', 'bad_zero', 'bad_import', 'bad_fwd', 'Conn.close', 'Conn.send', 'Conn.default', 'Conn.version', 'Conn.fwd',
       'conn.close', 'conn.fwd', 'Conn']),
     ('annotated_eager', 'import typing\n'
                         'def noparams() -> typing.List[int]:\n    return []\n'
@@ -572,7 +599,7 @@ def gen_construct(ch):
                 source=src, subjects=subjects, tags={'construct'})
 
 
-GEN_TEMPLATES = ['wraps', 'wraps_annot', 'sigattr', 'fwd', 'meth', 'mod', 'deco', 'asforged', 'comb', 'builtin', 'instdep']
+GEN_TEMPLATES = ['wraps', 'wraps_annot', 'sigattr', 'fwd', 'meth', 'mod', 'deco', 'asforged', 'comb', 'builtin', 'instdep', 'chain']
 
 
 def draw_gen_spec(ch, cfg):
@@ -754,8 +781,11 @@ def check_sphinx(res, dotted, viol, fault):
     # expected strings: evaluated signature of the object as the hook documents it
     import types
     o = obj
-    if isinstance(o, types.MethodType):
-        o = o.__func__      # the hook documents the function behind a method
+    if isinstance(o, types.MethodType) and isinstance(parent, type):
+        # reached through its class (a classmethod): the hook documents the function behind it,
+        # bound to a placeholder below.  A bound method that is an attribute of a module or of an
+        # instance (random.randint) is documented as what it is: without self
+        o = o.__func__
     raw = None
     if isinstance(parent, type):
         for klass in parent.__mro__:
